@@ -10,7 +10,7 @@ from world import World
 
 
 def strip_len(pdu: str) -> str:
-    return " ".join(x for x in pdu.split() if not x.startswith("len="))
+    return " ".join(x for x in pdu.split() if not x.startswith("len=") and not x.startswith("wire="))
 
 
 def pdu_kind(pdu: str) -> str:
